@@ -147,8 +147,8 @@ def _analyses():
             "facts about NumPy) for both node types (A1.sym); comparisons map to untraced functions, __bool__/shape/len read the raw value (A14); the notrace branch returns plain values; a written-out rule for a locally constant argument has that argument's shape support (A3.vjp); a zero that a rule builds itself does not get its shape from axis arithmetic that changes meaning for a negative axis (A7.zero).",
         ),
         "C15": (
-            [kc.raise_discipline, ka.guard_dominance, ka.option_domains, ka.sibling_guards, ka.raw_calls_in_wrappers, ka.arraybox_table, ka.operators, a1.nograd, a1.none_rules, _namespace_classes, km.wrap_namespace, km.guard_functions, a16_perm.norm_support, a16_perm.permutations_rule, a2.ignored_options],
-            "Loud failure: handlers on the rule-lookup/boxing path end in raise and lookups index (A6.raise), guards cannot be bypassed (A6.dom), closed option domains covered (A6.enum), no rule accepts an option of its primitive by name (or in **kwargs) and then never reads it (A2.ignored: an unsupported option has to be rejected, not swallowed), unsupported (rank, axis, ord) configurations of linalg.norm rejected on the whole finite domain (A6.support), every axis configuration of the axis-permuting primitives and of diagonal either returns the argument's layout or raises (A16, exhaustive over ranks 1..4), "
+            [kc.raise_discipline, ka.guard_dominance, ka.option_domains, ka.sibling_guards, ka.raw_calls_in_wrappers, ka.arraybox_table, ka.operators, a1.nograd, a1.none_rules, _namespace_classes, km.wrap_namespace, km.guard_functions, a16_perm.norm_support, a16_perm.permutations_rule, a2.ignored_options, ka.rank_guards],
+            "Loud failure: handlers on the rule-lookup/boxing path end in raise and lookups index (A6.raise), guards cannot be bypassed (A6.dom), rank guards of the flattening functions read the argument, not the answer (A6.guardarg), closed option domains covered (A6.enum), no rule accepts an option of its primitive by name (or in **kwargs) and then never reads it (A2.ignored: an unsupported option has to be rejected, not swallowed), unsupported (rank, axis, ord) configurations of linalg.norm rejected on the whole finite domain (A6.support), every axis configuration of the axis-permuting primitives and of diagonal either returns the argument's layout or raises (A16, exhaustive over ranks 1..4), "
             "guard agreement VJP<->JVP (A6.sibling), raw results re-traced (A6.rawcall), no __setitem__/in-place dunders and output checks of grad/value_and_grad/elementwise_grad (A6.ops), "
             "the only declarative ways to drop dependence are locally constant (A1.nograd/none), namespace classification of every exported callable.",
         ),
